@@ -73,6 +73,11 @@ class height_pressure(PseudoNetCDFFile):
         for i, (t, d) in enumerate(times):
             if (t, d) != (self.STIME, self.SDATE):
                 break
+        else:
+            raise ValueError(
+                ('Cannot infer the number of layers: all %d records have ' +
+                 'the same time (a single or incomplete time step)') % records
+            )
         self.SDATE = self.SDATE.view('i')
         self.createDimension('LAY', i / 2)
         self.createDimension('TSTEP', times.shape[0] / i)
